@@ -10,6 +10,7 @@ Directives (each on its own line, leading whitespace ignored):
   //@  invariant ... / decreases ...          the `//@  ` lines (prefix stripped) are inserted between the loop
   //@END                                      header and its `{`
   //@SUB "<from>" -> "<to>"                   literal rewrite inside the body (must match; listed in evidence)
+  //@SUBOPT "<from>" -> "<to>"                same, but skipped when <from> does not occur (used for `X::CONST` -> `X::CONST()`)
   //@START ... //@END                          insert the `//@  ` lines right after the opening brace of the body
   //@AT "<text>" before|after                 insert the following `//@  ` lines before/after the first body line
   //@END                                      containing <text>
@@ -130,9 +131,9 @@ def splice(tmpl_path, repo_root):
                         i += 1
                     i += 1
                     loops[n] = buf
-                elif t.startswith('//@SUB '):
-                    mm = re.match(r'//@SUB\s+"(.*)"\s*->\s*"(.*)"\s*$', t)
-                    subs.append((mm.group(1), mm.group(2)))
+                elif t.startswith('//@SUB ') or t.startswith('//@SUBOPT '):
+                    mm = re.match(r'//@SUB(?:OPT)?\s+"(.*)"\s*->\s*"(.*)"\s*$', t)
+                    subs.append((mm.group(1), mm.group(2), t.startswith('//@SUBOPT ')))
                     i += 1
                 elif t.startswith('//@AT '):
                     mm = re.match(r'//@AT\s+"(.*)"\s+(before|after)\s*$', t)
@@ -168,7 +169,9 @@ def splice(tmpl_path, repo_root):
                     _, bpos, _ = found[n - 1]
                     clause = '\n' + '\n'.join('/*@c*/ ' + c for c in loops[n]) + '\n'
                     body = body[:bpos] + clause + body[bpos:]
-            for frm, to in subs:
+            for frm, to, optional in subs:
+                if frm not in body and optional:
+                    continue  # a constant-to-function rewrite (R2) with nothing to rewrite
                 if frm not in body:
                     raise LostAnchor('rewrite source `%s` not found in %s' % (frm, a['fn']))
                 body = body.replace(frm, to)
